@@ -17,6 +17,19 @@ _BlockTreeBuilder.new_empty_array_for_evaluable   the DECISION which result arra
           * every other entry of _shared_arrays is untouched.
         The helpers get_variable_for_evaluable / get_lock_for_evaluable / _get_evaluable_index / get_block_for_evaluable and
         _BlockBuilder.__init__/assign_to/_block_for/_iter_locks are executed from their real bodies in line.
+_BlockBuilder.array_copy/array_iadd/array_imul/array_add_at/array_fill_zeros/eval/assert_equal
+        every leaf statement that ends up in the block tree sits inside `with lock` of ALL shared variables it mentions (ghost `held`
+        = the With blocks above it), no lock twice; the statement uses every operand; eval binds a NEW private variable.
+evaluable.compile (the statements `compile_parallel = ...` and the loop-generating `for` up to `assert not blocks`, run on fixed loop nests)
+        parallel.ctxrange only around outermost loops and exactly when maxprocs > 1 and no stats; nested loops iterate
+        treelog.iter.percentage(range(length)); the for statement iterates the range object the context hands out (`as`), over its
+        own length, around its own body block; the loop nest and the program order of all blocks follow the block ids.
+_pyast Block/With/If/ForLoop/CommentBlock/Assign/Exec/Assert/Raise `.lines` and `__bool__`
+        the printed text, read back by CPython's parser, is the statement tree: children in order, bodies inside their suites.
+topology.Topology._locate   sequential bookkeeping of the shared ielems/points: every point index this process claims is stored exactly
+        once (element index or -1), coordinates exactly for located points, nothing else is touched; the call returns normally only
+        if no point is marked missing or skip_missing; otherwise LocateError (after the remaining indices were skipped).
+Interleavings, visibility of stores between processes and kill faults are outside this family (see NOT_COVERED).
 """
 import itertools, os
 import z3
@@ -1124,17 +1137,41 @@ def contracts():
 
 
 def extra_obligations(tier, seed):
-    return []
+    """ground self-check of the block-id order used in the contracts: lex_gt / in_scope agree with Python's own tuple comparison on every
+    pair of ids of length <= 3 with entries < 3 (the axiom is also cross-checked natively, native/axioms.py)"""
+    from pyvc.inproc import decide_in_process
+    ids = [t for n in (1, 2, 3) for t in itertools.product(range(3), repeat=n)]
+    bad = []
+    for a in ids:
+        for b in ids:
+            if z3.is_true(z3.simplify(lex_gt(a, b))) != (a > b) or z3.is_true(z3.simplify(lex_eq(a, b))) != (a == b):
+                bad.append((a, b))
+            scope = len(a) <= len(b) and a <= b and a[:-1] == b[:len(a) - 1]
+            if z3.is_true(z3.simplify(in_scope(a, b))) != scope:
+                bad.append(('in_scope', a, b))
+    ob = Obligation('C16/evaluable:_BlockTreeBuilder.get_block_id/block-id-order', [], z3.BoolVal(not bad), 'ground', fn='evaluable:_BlockTreeBuilder.get_block_id',
+                    clause='contract-side-order-and-scope-agree-with-python-tuples', info={'pairs': len(ids) ** 2, 'disagreements': bad[:5]})
+    decide_in_process(ob)
+    return [ob]
 
 
-TRUSTED = ['Python orders tuples of ints lexicographically and builtins.max/min return the first extremal element (model `lexmax`; cross-checked in native/axioms.py)',
+TRUSTED = ['Python orders tuples of ints lexicographically and builtins.max/min return the first extremal element (model `lexmax`; cross-checked in native/axioms.py and by a ground obligation); sorted() with concrete keys is Python\'s own sorted',
            "str.format / f-strings with concrete int/str parts give the concrete string ('v{}'.format(7) == 'v7'); _pyast.Variable is a frozen dataclass: equal and hashed by name",
-           '_pyast constructors as tagged nodes (Block, CommentBlock, With, Assign, ... keep their children in order); _pyast expression .variables = the Variables below it (frame check in C16.py)']
+           '_pyast constructors as tagged nodes (Block, CommentBlock, With, Assign, ... keep their children in order) in the builder/compile contracts; that these nodes PRINT as nested text is the printer contract; _pyast expression .variables = the Variables below it (frame check in C16.py)',
+           'printer: CPython\'s parser (ast.parse, tokenize) is the reader of the generated text; expression texts (py_expr) are opaque one-line tokens that the printer never inspects (an inspection is outside the model = undecided)',
+           '_locate: floating point values are opaque (every comparison may come out either way, numpy.linalg.solve may raise LinAlgError), evaluable.compile/lower/sample are opaque; parallel.shempty arrays record their stores; `-1 in ielems` is true iff this process stored -1 or another process did (symbolic)']
 ASSUMPTIONS = ['BOUNDED new_empty_array_for_evaluable: loop depth <= 2 (block ids of length <= 3), array rank <= 2, block-id entries symbolic non-negative ints',
-               'every shape entry of the array is in scope at the block of the array (get_block_id\'s scope assertion: not later, and in an enclosing loop nest); the evaluable index of the array is new or its own, `_origin` is None and `_stats` is falsy (parallel compiles never collect stats: compile_parallel = ... and not stats)',
-               'one other shared array (v3 -> lock3) is registered beforehand; evaluable indices are handed out by a counter (itertools.count) and are therefore distinct']
-NOT_COVERED = ['that every writer into a shared array goes through _BlockBuilder (the _compile_with_out methods of the array classes), that `out` is only written at block ids >= the returned out_block_id',
-               'get_block_id itself (the placement of every evaluable) and _define_loop_block_structure']
+               'every shape entry of the array is in scope at the block of the array (get_block_id\'s scope assertion: not later, and in an enclosing loop nest); `_origin` is None and `_stats` is falsy (parallel compiles never collect stats: compile_parallel = ... and not stats)',
+               'one other shared array (v3 -> lock3) is registered beforehand and an earlier rank-0 array outside every loop has been placed by the same real code; evaluable indices are handed out by a counter (itertools.count) and are therefore distinct',
+               'BOUNDED emitters: operands over two shared variables with distinct locks and one private variable (array_add_at: at most 3 variable occurrences in total)',
+               'BOUNDED compile() loop generation: five fixed loop nests (depth <= 3); maxprocs >= 1 (parallel.maxprocs contract) and stats are symbolic; builder.compile(length)/new_var are stubs handing out distinct tokens',
+               'BOUNDED printer: 81 two-level nestings of With/With-as/With-omit/If/If-else/ForLoop/CommentBlock/Block with statements before, between and after, and 13 special trees (empty bodies, omit_if_body_is_empty, single-line comments, the lock pattern); nodes are built field by field (If.else_body defaults to an empty Block as in If.__init__)',
+               'BOUNDED _locate: this process claims 1 or 2 increasing point indices from the shared range (parallel.range.__next__ contract), 1 or 2 candidate elements, maxdist is None; geom.shape[0] >= ndims (checked by Topology.locate); the Newton loop is cut by the trivial invariant (nothing is claimed about convergence)']
+NOT_COVERED = ['that every writer into a shared array goes through the _BlockBuilder of the evaluable that allocated it: _shared_arrays is PER _BlockTreeBuilder instance (one per origin evaluable), so statements of OTHER evaluables that read a shared array are not locked -- they are safe only because they are placed after the loop that writes (block order), which is not under contract',
+               'that `out` is only written at block ids >= the returned out_block_id (the _compile_with_out methods of the array classes); get_block_id itself and _define_loop_block_structure',
+               'a global acquisition ORDER of the locks: _iter_locks follows argument order and frozenset iteration order, two statements may take the same two locks in opposite orders (deadlock freedom is an interleaving property; see notes/C16-c16.md)',
+               'the rest of compile() (cache_const_intermediates filtering, stats wrapper, script assembly `\\n    `.join(lines)); Global statements; _pyast expression printing (py_expr of Call/GetItem/...)',
+               '_locate with maxdist, the Newton iteration itself, Topology.locate/_sample, the StructuredTopology fast path; interleavings of several processes storing into ielems/points (each index is stored by the one process that claimed it: composition with range.__next__, meta)']
 
 
 def install(g):
